@@ -42,6 +42,7 @@ type c08Case struct {
 	Mat    c08Mat    `json:"mat"`
 	Params c08Params `json:"params"`
 	Hash   string    `json:"hash"`
+	Hist   *c08Hist  `json:"hist,omitempty"` // key-object history case (c08_hist.go)
 }
 
 func jwaKeyAlgorithm(s string) jwa.KeyAlgorithm { return jwa.KeyAlgorithm(s) }
@@ -248,10 +249,15 @@ func c08ExpectParams(kty string, ops vf.Wire, p c08Params) map[string]string {
 }
 
 func c08Fail(c *vf.Ctx, kind, class, what string, cs any, obs, req string) {
+	c.Count("violation-class:" + class) // every failure is counted (only the first few are stored with a replay)
 	c.Fail(vf.Violation{Kind: kind, Class: class, What: what, Case: cs, Observed: obs, Required: req})
 }
 
 func execC08(c *vf.Ctx, d *vf.Driver, cs c08Case) {
+	if cs.Hist != nil {
+		execC08Hist(c, d, cs)
+		return
+	}
 	m, p := cs.Mat, cs.Params
 	label := m.Kind + "/" + m.Crv
 	if m.Kind == "rsa" {
@@ -408,8 +414,22 @@ func execC08(c *vf.Ctx, d *vf.Driver, cs c08Case) {
 	wantKty, _ := rfc["kty"].(string)
 	wantParams := c08ExpectParams(wantKty, baseOps, p)
 	rfcData := mustJSON(rfc)
-	for i, src := range [][]byte{data, rfcData} {
-		which := []string{"goat-output", "rfc-encoder-output"}[i]
+	// the same JWK with CR / LF / CRLF inside and around every base64url value (goat's decoder skips line breaks)
+	rfcLB := map[string]any{}
+	for n, v := range rfc {
+		rfcLB[n] = v
+		if str, ok := v.(string); ok && len(str) >= 2 {
+			switch n {
+			case "x", "y", "d", "n", "e", "p", "q", "dp", "dq", "qi", "k", "x5t", "x5t#S256":
+				brk := []string{"\r", "\n", "\r\n"}[(len(str)+len(n))%3]
+				lastq := len(str) - ((len(str)-1)%4 + 1)
+				at := []int{0, len(str) / 2, lastq, len(str)}[(len(str)/3+len(n))%4]
+				rfcLB[n] = str[:at] + brk + str[at:]
+			}
+		}
+	}
+	for i, src := range [][]byte{data, rfcData, mustJSON(rfcLB)} {
+		which := []string{"goat-output", "rfc-encoder-output", "rfc-encoder-output+linebreaks"}[i]
 		var back *jwk.Key
 		var perr error
 		panicked, what = vf.Recover(func() { back, perr = jwk.ParseKey(src) })
@@ -917,6 +937,7 @@ func runC08(c *vf.Ctx) {
 			}
 		}
 	}
+	sys = append(sys, c08HistSystematic(sr)...)
 	workers := 16
 	c.Parallel(workers, true, func(w int, r *vf.Rand, d *vf.Driver) {
 		for _, f := range c08Corpus("C08") {
@@ -931,6 +952,10 @@ func runC08(c *vf.Ctx) {
 			execC08(c, d, sys[i])
 		}
 		for i := 0; i < n/workers; i++ {
+			if i%5 == 4 {
+				execC08(c, d, genC08Hist(r, w*1000000+i))
+				continue
+			}
 			execC08(c, d, genC08(r, w*1000000+i))
 		}
 	})
